@@ -19,20 +19,26 @@ TRUSTED = (
 CHECKS = {
     "C01": dict(
         level="exploration",
-        technique="TLA+ spec MiniPy.tla: TLC generates annotated functions (statements over catalogues of expressions, tests and "
-        "match patterns; parameter types from the shared term universe) together with the argument tuples, which TLC draws "
-        "from the declared types with the Member relation; each function is checked by the real visitor (annotated tree) and "
-        "executed under CPython with an AST-rewriting recorder; the recorded (node, runtime value, inferred type) events are "
-        "validated by TLC (MiniPyTrace.tla): Member(value, inferred) at every evaluated node, Never never reached",
-        text="Exploration with a TLA+ generator and TLC as the judge: every single-statement body x every pair of 19 parameter "
-        "types (sampled in quick) and simulated bodies of up to 5 statements / depth 3 (if/while/for/try/finally/match, 34 "
-        "expressions, 22 tests, 13 patterns) x up to 6 argument tuples each; ~17k executions and ~40k judged node evaluations "
-        "in quick. The visitor's abstract machine is not one specification: its components are modelled and bound in C02, C09, "
-        "C14, C03/C04 and the call specs. Three named deviation classes are known findings.",
+        technique="TLA+ spec MiniPy.tla: TLC generates annotated functions (a staged stack machine composing whole source lines over "
+        "catalogues of 219 expressions, 97 tests and 76 match patterns; parameter types from the shared term universe) together "
+        "with the argument tuples, which TLC draws from the declared types with the Member relation; each function is checked by "
+        "the real visitor and executed under CPython with an AST-rewriting recorder; the recorded (node, runtime value, inferred "
+        "type) events are validated by TLC (MiniPyTrace.tla): Member(value, inferred) at every evaluated node, Never never "
+        "reached; MiniPyTrace.tla replays the known deviating mechanisms over store / loop / try / with / match events so that a "
+        "deviation class excuses an unsound event only if its mechanism explains that event; inferred types are read per visit "
+        "through harness-side wrappers around visit / composite_from_node",
+        text="Exploration with a TLA+ generator and TLC as the judge: single statements x 29 parameter types, a narrowing slice "
+        "(every test in if / if-else / early return, every pattern pair incl. guards), bodies of <=6 statements / depth 3 by "
+        "simulation (unpacking, augmented assignment, assert, saved conditions, walrus, break / continue / raise, loop else, "
+        "try shapes, suppressing with, match with guards, comprehensions, dict methods, 25 builtins, two-typevar generics, a "
+        "generic class and a dataclass); ~44k executions, ~440k judged events, 1.2% skipped in quick. The visitor's abstract "
+        "machine is not one specification: its components are modelled and bound in C02, C09, C14, C03/C04 and the call specs. "
+        "Event-level deviation classes and 4 domain classes, each self-tested for reachability and non-masking.",
         design="2/C01",
         note=TRUSTED + " Runtime values come from instrumented execution under CPython 3.12; values / inferred types outside the "
-        "term universe (other classes, callables, TypedDict, unsolved type variables) are not judged; bool arguments are only "
-        "passed where bool is declared (cross-type equality, as in C02); programs do not mutate containers.",
+        "term universe are not judged (counted as skipped); bool arguments are only passed where bool is declared (cross-type "
+        "equality, as in C02); programs mutate only the locals m / d; domain verdicts (not findings): cross-type equality, "
+        "value of a rejected expression, variadic-tuple leniency, flows-from-Any.",
     ),
     "C02": dict(
         technique="TLA+ specs Narrowing.tla + Boolability.tla (over Assign/ValueAlgebra/Values): transcription of the "
@@ -287,12 +293,21 @@ CHECKS = {
     "C16": dict(
         technique="TLA+ state machine FixLoop.tla (add-ignores loop over the Suppression.tla machine) model-checked by TLC "
         "for convergence / tree unchanged / each inserted ignore targets one diagnostic; the real fix loop is driven on the "
-        "TLC-enumerated files and its Begin/Iter/End stream validated by TLC (FixLoopTrace.tla)",
+        "TLC-enumerated files and its Begin/Iter/End stream validated by TLC (FixLoopTrace.tla); part B FixReplace.tla: replacement "
+        "fixes (9 producers) as post-conditions per step; part C FixLayout.tla: textual model of the fixer's line-range "
+        "computation (get_line_range_for_node heuristics, replace_node / remove_node, add-ignores insertion, "
+        "_apply_changes_to_lines) over physical line records, model-checked Impl = Ref(statement extent, lines owned, block "
+        "kept, comment only where it is a lexical no-op) outside 8 named classes; every enumerated file fixed by the real code "
+        "to the fixpoint and judged by FixLayoutTrace.tla (oracle = CPython's node extent -> drift -> clauses), CLI -r on a "
+        "sample",
         text="Model checking of the add-ignores fix loop: every abstract file x settings, every iteration to the fixpoint; "
         "the three known deviation classes are named predicates in the spec (known_findings.jsonl), everything else must "
-        "hold. Real loop bound by trace validation of every iteration (inserted line, position, first diagnostic).",
+        "hold. Real loop bound by trace validation of every iteration (inserted line, position, first diagnostic). Parts B / C: "
+        "replacement fixes as post-conditions (parses, proposing diagnostic gone, AST = intended program, loop clean) and as "
+        "text operations over fix kind x 24 statement layouts x 9 blocks x 8 lines-before x 12 lines-after x 3 end-of-file "
+        "positions (87k states quick / 200k thorough; 3.7k / 99k files through the real fixer).",
         design="2/C16",
-        note=TRUSTED + " Replacement fixes (missing_f, use_fstrings, unused_variable, too_many_positional_args, unused_ignore) are covered by part B (FixReplace.tla / FixReplaceTrace.tla, c16b.py) with post-conditions only: parses, proposing diagnostic gone, AST delta within the allowed set; the decompiler's text fidelity is outside what TLA+ decides.",
+        note=TRUSTED + " Replacement fixes (missing_f, use_fstrings, unused_variable, too_many_positional_args, unused_ignore) are covered by part B (FixReplace.tla / FixReplaceTrace.tla, c16b.py) with post-conditions only: parses, proposing diagnostic gone, AST delta within the allowed set; the decompiler's text fidelity is outside what TLA+ decides (comments inside the rewritten statement are lost by design and not counted). 8 open findings in the line-range / insertion code (proposed/C16-fix-1..3.diff); asynq multi-statement rewrites (missing_asynq, duplicate / unnecessary yield) are not realised.",
     ),
     "C17": dict(
         technique="TLA+ specs PercentFormat.tla / StrFormat.tla (transcription of format_strings.py + _str_format_impl vs an "
